@@ -999,7 +999,7 @@ class Env:
         sheet._setFetcher(lambda url: None)
         return HistState(sheet)
 
-    def history(self, ops, raising=True, kind='history', fresh_ns=False):
+    def history(self, ops, raising=True, kind='history', fresh_ns=False, reparse=True):
         """run on the implementation; queue the model lines; returns the final length of the sheet's list"""
         if fresh_ns:
             ops = [self.freshen(op, i) for i, op in enumerate(ops)]
@@ -1018,7 +1018,7 @@ class Env:
                     lines.append(op_line(op))
                     expect.append(out + ' | ' + d)
                 self.oracle.after(st, op, out, pre, ops[:i + 1], raising)
-            b = self.oracle.end(st, ops, raising)
+            b = self.oracle.end(st, ops, raising) if reparse else None
             lines.append('reparse')
             expect.append(None if b is None else 'R ' + b)
         self.cssutils.log.raiseExceptions = self.saved_raise
